@@ -153,7 +153,7 @@ REVERTS = [
     ("bc06074", "C08"), ("4af9c5b", "C09"), ("25da695", "C15"), ("1391308", "C04"), ("f03be70", "C04"), ("e68e37a", "C04"),
     ("a831b8d", "C04"), ("ec98e89", "C20"), ("105baf8", "C14"), ("0c5b5a5", "C18"), ("19e3e72", "C18"), ("407ec0f", "C16"),
     ("8badf21", "C16"), ("5871357", "C06"), ("d8fc3f5", "C17"), ("d8fc3f5", "C12"), ("462f6b9", "C03"), ("1bb3e0a", "C03"),
-    ("1bb3e0a", "C12"), ("e534b52", "C03"), ("0897f2c", "C12"), ("f03be70", "C14"),
+    ("1bb3e0a", "C12"), ("e534b52", "C03"), ("0897f2c", "C12"), ("f03be70", "C14"), ("38a3588", "C02"), ("38a3588", "C04"), ("cfb484b", "C03"),
 ]
 
 
